@@ -261,8 +261,19 @@ pub fn run(args: &Args) -> ! {
                     break; // inputs are ordered by length
                 }
                 let lines = split_lines(input, b'\n');
-                let hits = reference_hits(&rf, input, &lines, false);
-                let hits_f5 = reference_hits(&rf, input, &lines, true);
+                // A pattern that cannot match `\n` is outside this property's
+                // quantifier: the searcher runs it line by line, and C02 demands
+                // that the multi-line request then changes nothing. Under LF the
+                // whole-input reference and the per-line one coincide (and the
+                // whole-input one is kept); under CRLF they differ exactly on
+                // matches inside a line's `\r\n`, which is not part of the line.
+                let per_line: Option<Vec<bool>> = if !is_multi && mode.crlf {
+                    Some(lines.iter().map(|&(s, e)| rf.is_match(strip(&input[s..e], Term::Crlf))).collect())
+                } else {
+                    None
+                };
+                let hits = per_line.clone().unwrap_or_else(|| reference_hits(&rf, input, &lines, false));
+                let hits_f5 = per_line.unwrap_or_else(|| reference_hits(&rf, input, &lines, true));
                 if hits.iter().any(|&h| h) {
                     acc.nontrivial += 1;
                 }
@@ -334,7 +345,7 @@ pub fn run(args: &Args) -> ! {
     ev.set(
         "rule",
         format!(
-            "patterns: every token string of length 1..3 over {:?}, plus every length-4 token string containing an alternation and a token that can cross a line boundary (on the quick tier: inputs up to length 4, no context, slice strategy) (built with multi_line, as rg -U does; modes LF, LF+dotall, CRLF); inputs: every byte string over {{a,b,-,\\n}} (+\\r under CRLF) up to the length bound; x invert x (A,B) in {:?} x strategy (slice, fragmented reader; search_path without mmap for every 4th pattern); one Searcher per configuration reused across all inputs. Reference: iterate regex::bytes::Regex::find_at over the WHOLE input (pos = end, +1 after an empty match); a line is hit iff a match overlaps it (empty match: the line containing its position, or an unterminated last line at the very end); context, separators, numbering, offsets and byte count by the grep model of C03. Compared: the flattened per-line event list. distinct_nontrivial = (pattern, mode, input) triples with at least one hit line.",
+            "patterns: every token string of length 1..3 over {:?}, plus every length-4 token string containing an alternation and a token that can cross a line boundary (on the quick tier: inputs up to length 4, no context, slice strategy) (built with multi_line, as rg -U does; modes LF, LF+dotall, CRLF); inputs: every byte string over {{a,b,-,\\n}} (+\\r under CRLF) up to the length bound; x invert x (A,B) in {:?} x strategy (slice, fragmented reader; search_path without mmap for every 4th pattern); one Searcher per configuration reused across all inputs. Reference: iterate regex::bytes::Regex::find_at over the WHOLE input (pos = end, +1 after an empty match); a line is hit iff a match overlaps it (empty match: the line containing its position, or an unterminated last line at the very end; for a pattern that cannot match \\n under CRLF — searched line by line, outside the property's quantifier — a line is hit iff the pattern matches the line without its \\r\\n); context, separators, numbering, offsets and byte count by the grep model of C03. Compared: the flattened per-line event list. distinct_nontrivial = (pattern, mode, input) triples with at least one hit line.",
             TOKENS, ctxs
         ),
     );
